@@ -118,8 +118,9 @@ CLAIMED = {
         'join() does not wait on a worker with no reason to exit, and '
         'submissions after close() return None. Exploration level.',
         'Simulated workers; real processes/threads being gone after join() is the '
-        'real-pool part. D10 (closed recycling pool) and D6b (late READY not '
-        'credited) are open known findings.',
+        'real-pool part. D10 (closed recycling pool) and the rest of D6b (results '
+        'of an already failed map left unread at shutdown) are open known '
+        'findings; close() racing a worker replacement is generated (closerace).',
         'DESIGN.md section 3 C07'),
     'C09': (
         'simpool',
@@ -134,7 +135,8 @@ CLAIMED = {
         'the task outcomes (incl. unserialisable results) and recycles on a '
         'memory-limit hit after finishing the task; real pools: per-process task '
         'counts, recycle statuses, every job exactly once. Exploration level.',
-        'Simulated workers for the supervision part; D6b is an open finding.',
+        'Simulated workers for the supervision part; results arriving after their '
+        'job left the cache (D6b, repaired) are generated and judged.',
         'DESIGN.md section 3 C09'),
     'C10': (
         'unit+simpool',
